@@ -35,7 +35,9 @@ vars == <<s, hist, bad>>
 -----------------------------------------------------------------------------
 (* Configurations *)
 PredefSeq == << [c |-> "*", id |-> 2, n |-> "pre/x"], [c |-> "c1", id |-> 5, n |-> "pre/y"],
-                [c |-> "*", id |-> 6, n |-> "pre/z"], [c |-> "c1", id |-> 6, n |-> "own/z"] >>
+                [c |-> "*", id |-> 6, n |-> "pre/z"], [c |-> "c1", id |-> 6, n |-> "own/z"],
+                \* a predefined wildcard filter: legal for SUBSCRIBE by ID, never a PUBLISH topic name (C24)
+                [c |-> "*", id |-> 7, n |-> "w/#"] >>
 MkCfg(auth, creds) ==
     [auth |-> auth, hasuser |-> creds, user |-> IF creds THEN "gwu" ELSE "", haspass |-> creds,
      pass |-> IF creds THEN "gwp" ELSE "", retrydelay |-> 10, retrycount |-> 1,
@@ -69,16 +71,19 @@ Auths ==
       EvC([P0 EXCEPT !.t = "AUTH", !.method = "PLAIN", !.plain = TRUE, !.plainok = TRUE, !.user = "u2", !.pass = ""]),
       EvC([P0 EXCEPT !.t = "AUTH", !.method = "PLAIN", !.plain = TRUE, !.plainok = TRUE, !.user = "", !.pass = "p3"]),
       EvC([P0 EXCEPT !.t = "AUTH", !.method = "X", !.plain = FALSE, !.plainok = TRUE, !.user = "u1", !.pass = "p1"]) }
+\* long enough to overwrite anything an earlier, shorter packet (AUTH) left in a reused receive buffer
+WT == "will/topic/of/client/c1/0123456789"
+WM == "s:will-message-0123456789a"    \* 24 octets: the longest payload absmap.EncData keeps verbatim
 Wills ==
-    { EvC([P0 EXCEPT !.t = "WILLTOPIC", !.topic = "wt", !.qos = 1, !.retain = TRUE]),
+    { EvC([P0 EXCEPT !.t = "WILLTOPIC", !.topic = WT, !.qos = 1, !.retain = TRUE]),
       EvC([P0 EXCEPT !.t = "WILLTOPIC", !.empty = TRUE]),
-      EvC([P0 EXCEPT !.t = "WILLTOPIC", !.topic = "wt", !.qos = 3]),
-      EvC([P0 EXCEPT !.t = "WILLMSG", !.data = "s:wm"]) }
+      EvC([P0 EXCEPT !.t = "WILLTOPIC", !.topic = WT, !.qos = 3]),
+      EvC([P0 EXCEPT !.t = "WILLMSG", !.data = WM]) }
 Sleeps == { EvC([P0 EXCEPT !.t = "DISCONNECT", !.dur = 3, !.hasdur = TRUE]),
             EvC([P0 EXCEPT !.t = "DISCONNECT", !.dur = 1, !.hasdur = TRUE]),
             EvC([P0 EXCEPT !.t = "PINGREQ", !.cid = "c1"]) }
 Terms == { EvC([P0 EXCEPT !.t = "DISCONNECT"]), EvT("Shutdown", 0), EvT("BEof", 0), EvT("CRaw", 0), EvT("BRaw", 0) }
-Others == { EvC([P0 EXCEPT !.t = "SEARCHGW"]), EvC([P0 EXCEPT !.t = "WILLTOPICUPD", !.topic = "wt"]),
+Others == { EvC([P0 EXCEPT !.t = "SEARCHGW"]), EvC([P0 EXCEPT !.t = "WILLTOPICUPD", !.topic = WT]),
             EvC([P0 EXCEPT !.t = "CONNACK"]), EvC([P0 EXCEPT !.t = "SUBACK", !.mid = 1]) }
 Registers ==
     \* "pre/x", "own/z": names that are also predefined for this client
@@ -86,7 +91,7 @@ Registers ==
 Subscribes ==
     {EvC([P0 EXCEPT !.t = "SUBSCRIBE", !.mid = m, !.qos = q, !.tit = 0, !.topic = n, !.wild = Attr(n).wild, !.dup = d])
        : m \in MsgIds, q \in {1, 3}, n \in {"a/b", "pre/x"} \cup WildNames, d \in BOOLEAN}
-    \cup {EvC([P0 EXCEPT !.t = "SUBSCRIBE", !.mid = m, !.qos = 0, !.tit = 1, !.tid = i]) : m \in MsgIds, i \in {5, 6, 9}}
+    \cup {EvC([P0 EXCEPT !.t = "SUBSCRIBE", !.mid = m, !.qos = 0, !.tit = 1, !.tid = i]) : m \in MsgIds, i \in {5, 6, 7, 9}}
     \cup {EvC([P0 EXCEPT !.t = "SUBSCRIBE", !.mid = m, !.qos = 2, !.tit = 2, !.tid = ShortId("ab"), !.sname = "ab"]) : m \in MsgIds}
 Unsubscribes ==
     {EvC([P0 EXCEPT !.t = "UNSUBSCRIBE", !.mid = m, !.tit = 0, !.topic = "a/b"]) : m \in MsgIds}
@@ -96,7 +101,7 @@ Publishes ==
     {EvC([P0 EXCEPT !.t = "PUBLISH", !.qos = q, !.tit = 0, !.tid = i, !.mid = m, !.data = "s:p1", !.retain = (q = 1), !.dup = (q = 2)])
        : q \in Qoss, i \in {1, 2}, m \in MsgIds}
     \cup {EvC([P0 EXCEPT !.t = "PUBLISH", !.qos = q, !.tit = 1, !.tid = i, !.mid = m, !.data = "s:p2"])
-            : q \in Qoss, i \in {2, 6, 9}, m \in MsgIds}
+            : q \in Qoss, i \in {2, 6, 7, 9}, m \in MsgIds}
     \cup {EvC([P0 EXCEPT !.t = "PUBLISH", !.qos = q, !.tit = 2, !.tid = ShortId("ab"), !.sname = "ab", !.mid = m, !.data = "s:"])
             : q \in Qoss, m \in MsgIds}
     \cup {EvC([P0 EXCEPT !.t = "PUBLISH", !.qos = 1, !.tit = 2, !.tid = 24875, !.sname = "a+", !.swild = TRUE, !.mid = m, !.data = "s:p3"]) : m \in MsgIds}
@@ -178,7 +183,7 @@ SelfObs(st) ==
     [outC |-> [i \in DOMAIN st.outC |-> ObsSn(st.outC[i])],
      outB |-> [i \in DOMAIN st.outB |-> ObsMq(st.outB[i])],
      bclosed |-> ~st.bopen, ended |-> ~st.alive, st |-> st.st, nbuf |-> Len(st.buf),
-     pend |-> <<>>, reg |-> <<>>, leaked |-> 0, bjunk |-> FALSE, now |-> st.now]
+     pend |-> <<>>, reg |-> <<>>, leaked |-> 0, bjunk |-> FALSE, now |-> st.now, wasEnded |-> FALSE]
 
 SelfChecks(st, e, s2) ==
     LET o == SelfObs(s2) IN
